@@ -3,10 +3,13 @@
   Ops:
     fmt_spell  in {vals: [rat]}            impl [string]   — `'%.6g' % x` of the real code
     tab_spell  in {t0, cna}                impl {file1, t1, file2, file3} — write / read / write / write
+    src_key    in {names: [string]}        — sort key by the model AND by the function regenerated from the source
+    src_label  in {rows: [[chrom, s, e]]}  — `to_label` by the model and by the generated function, read back by the model
   `spec` is evaluated on the IMPLEMENTATION's strings / files with the model's number parser as oracle.
 -/
 import CnvVerif.Driver.Formats
 import CnvVerif.Model.FormatsExt
+import CnvVerif.Generated.ExprsChromsort
 open Lean
 namespace CnvVerif.Drv
 open CnvVerif.Fmt
@@ -65,6 +68,26 @@ def handleFormatsExt (op : String) (inp : Json) (impl : Option Json) : R (Option
                                       | .ok a, .ok b => a == b
                                       | _, _ => false))]),
                      ("spec", spec)]))
+  | "src_key" =>
+    let names ← getList getStr (← fld inp "names")
+    let out := names.map fun c =>
+      let k := sorterChrom c
+      let g := CnvVerif.Generated.src_sorter_chrom c
+      obj [("model", arrJ [natJ k.1, strJ k.2]), ("src", arrJ [natJ g.1, strJ g.2]),
+           ("outside", Json.bool (c.toList.any fun ch => ch.toNat ≥ 128))]
+    pure (some (obj [("out", arrJ out), ("spec", Json.null)]))
+  | "src_label" =>
+    let rows ← getList (fun j => do
+      let a ← getArr j
+      if a.size < 3 then throw "row needs 3 entries"
+      pure ((← getStr a[0]!), (← getInt a[1]!), (← getInt a[2]!))) (← fld inp "rows")
+    let out := rows.map fun (c, s, e) =>
+      let lab := CnvVerif.Generated.src_to_label c s e
+      obj [("label", strJ lab), ("model", strJ (toLabel c s e)),
+           ("back", match parseTextLine lab with
+              | .ok r => arrJ [strJ r.chrom, intJ r.s, intJ r.e]
+              | .error m => strJ m)]
+    pure (some (obj [("out", arrJ out), ("spec", Json.null)]))
   | _ => pure none
 
 end CnvVerif.Drv
